@@ -425,6 +425,12 @@ def run(tier, seed, t0):
         histogram_flush_vs_record(e3)
     except _e3.ENC_ERRORS as ex:
         e3.error("c10_histogram_flush_vs_record", "MIR->SMT encoding of AtomicHistogram::{new,record,flush}", ex)
+    # what the socket receives is framed by the payload writer (C09's machinery): a second flush cycle on the same writer
+    try:
+        import c09
+        c09.analyse(e3, "c10_framing_second_flush", [("counter", 0, 1, False, False), ("drain",), ("gauge", 1, 1, True, False), ("drain",)], "two flush cycles on one payload writer (framing for the transport in use)")
+    except _e3.ENC_ERRORS as ex:
+        e3.error("c10_framing_second_flush", "MIR->SMT encoding of PayloadWriter", ex)
     for n in ([4] if tier == "quick" else [3, 4, 5]):
         try:
             flush_history(e3, n)
@@ -440,6 +446,6 @@ def replay(path):
     if path.endswith(".vals"):
         return _kprop.replay(path)
     import replay_e3
-    status, out = replay_e3.run("c10", path)
+    status, out = replay_e3.run("c09" if "c10_framing" in path else "c10", path)
     print(status, out)
     return 1 if status == "reproduced" else 0
